@@ -77,6 +77,10 @@ func init() {
 func init() {
 	// C11: will messages
 	props["C11"] = &sessProp{id: "C11", gen: func(r *Rng, i int, tier string) *sessCase {
+		if i%30 == 21 {
+			// a client that has stopped reading: the broker's writer is blocked when the connection has to end
+			return &sessCase{Stalled: 3}
+		}
 		c := &sessCase{Preempt: true}
 		v5mask := r.Intn(4) // which client ids speak MQTT 5 in this history
 		n := 3 + r.Intn(8)
@@ -166,6 +170,9 @@ func init() {
 		if i%30 == 14 {
 			return &sessCase{Closing: true}
 		}
+		if i%30 == 21 {
+			return &sessCase{Stalled: 2}
+		}
 		if i%30 == 29 {
 			// the whole server: listeners, established connections and connections still in their handshake
 			lc := &lisCase{}
@@ -229,6 +236,10 @@ func init() {
 func init() {
 	// C10: one live connection per client id; takeover / refusal; CONNECT always answered
 	props["C10"] = &sessProp{id: "C10", gen: func(r *Rng, i int, tier string) *sessCase {
+		if i%30 == 21 {
+			// a client that has stopped reading: the broker's writer is blocked when the connection has to end
+			return &sessCase{Stalled: 1}
+		}
 		c := &sessCase{Preempt: r.Chance(65)}
 		v5mask := r.Intn(4)
 		timed := i%4 == 3
